@@ -13,10 +13,12 @@ type BWarrior struct {
 	CodeText []string    `json:"code"`
 	Start    int         `json:"start"`
 	Off      int         `json:"off"`
+	NeverSpawn bool      `json:"never_spawned,omitempty"`
 }
 
 // BattleCase is a whole battle: configuration, warriors and placements.
 type BattleCase struct {
+	Mode, Len     int // rule-set mode and maximum length: the simulator must not care
 	M, P, C, R, W int
 	HugeC         uint64 `json:",omitempty"` // when non-zero: the real cycle limit (>= 2^32); C then only bounds the reference
 	Warriors      []*BWarrior
@@ -74,6 +76,12 @@ func genBattle(r *Rng, maxW int, limits bool) *BattleCase {
 	if limits && r.Chance(1, 2) {
 		bc.R, bc.W = r.Range(1, m), r.Range(1, m)
 	}
+	if r.Chance(1, 2) {
+		bc.Mode = r.Intn(3)
+	}
+	if r.Chance(1, 3) {
+		bc.Len = []int{1, m / 4, m / 2, m}[r.Intn(4)]
+	}
 	nw := r.Range(1, maxW)
 	for i := 0; i < nw; i++ {
 		l := r.Range(1, min(m, 10))
@@ -90,6 +98,10 @@ func genBattle(r *Rng, maxW int, limits bool) *BattleCase {
 		}
 		w.Start = r.Intn(l)
 		w.Off = r.Intn(m)
+		if r.Chance(1, 60) {
+			w.Code = w.Code[:0] // a warrior without code: spawning it only queues a task
+			w.Start = 0
+		}
 		bc.Warriors = append(bc.Warriors, w)
 	}
 	return bc
@@ -100,8 +112,8 @@ func (bc *BattleCase) config() g.SimulatorConfig {
 	if bc.HugeC != 0 {
 		cycles = g.Address(bc.HugeC)
 	}
-	return g.SimulatorConfig{Mode: g.ICWS94, CoreSize: g.Address(bc.M), Processes: g.Address(bc.P), Cycles: cycles,
-		ReadLimit: g.Address(bc.R), WriteLimit: g.Address(bc.W), Length: 0, Distance: 0}
+	return g.SimulatorConfig{Mode: []g.SimulatorMode{g.ICWS94, g.ICWS88, g.NOP94}[bc.Mode%3], CoreSize: g.Address(bc.M), Processes: g.Address(bc.P), Cycles: cycles,
+		ReadLimit: g.Address(bc.R), WriteLimit: g.Address(bc.W), Length: g.Address(bc.Len), Distance: 0}
 }
 
 // newRef builds the reference battle with all warriors added and spawned in order.
